@@ -667,7 +667,7 @@ func openFromZipReader(zipReader *zip.Reader, filename string) (*Document, error
 //	if err != nil {
 //		log.Fatal(err)
 //	}
-func (d *Document) Save(filename string) error {
+func (d *Document) Save(filename string) (err error) {
 	Infof("正在保存文档: %s", filename)
 
 	// 确保目录存在
@@ -683,11 +683,23 @@ func (d *Document) Save(filename string) error {
 		Errorf("无法创建文件: %s", filename)
 		return WrapErrorWithContext("create_file", err, filename)
 	}
-	defer file.Close()
+	defer func() {
+		// 关闭文件失败同样意味着保存失败
+		if cerr := file.Close(); cerr != nil && err == nil {
+			Errorf("无法关闭文件: %s", filename)
+			err = WrapErrorWithContext("close_file", cerr, filename)
+		}
+	}()
 
 	// 创建ZIP写入器
 	zipWriter := zip.NewWriter(file)
-	defer zipWriter.Close()
+	defer func() {
+		// zip.Writer 带缓冲：中央目录和尚未刷新的数据在Close时才写入，其错误不能丢弃
+		if cerr := zipWriter.Close(); cerr != nil && err == nil {
+			Errorf("无法完成ZIP写入: %s", filename)
+			err = WrapErrorWithContext("close_zip", cerr, filename)
+		}
+	}()
 
 	// 序列化主文档
 	if err := d.serializeDocument(); err != nil {
